@@ -167,7 +167,8 @@ def Lexer.doAdvance (read : Read) (l : Lexer) (skip : Bool) : Lexer :=
 
 /-- `ts_lexer__advance` (without logging). -/
 def Lexer.advance (read : Read) (l : Lexer) (skip : Bool) : Lexer :=
-  if l.chunk.isEmpty then l
+  -- `if (!self->chunk || ts_lexer__eof(_self)) return;` (the EOF test since /repo 5e58eb0)
+  if l.chunk.isEmpty || l.eof then l
   else
     let next := l.pos.bytes + 1
     let curEnd := (l.range l.idx).end_byte
